@@ -236,6 +236,12 @@ func (core *JApiCore) checkPathSchemaPropertyUserType(typeName string) error {
 		return fmt.Errorf(`%s (%s)`, jerr.UserTypeNotFound, typeName)
 	}
 
+	if ut.Schema.Notation().IsAnyOrEmpty() {
+		// There is no schema behind the notations "any" and "empty" (GetAST would
+		// dereference a nil schema), and "any" value can be an object or an array.
+		return fmt.Errorf("%s (%s)", jerr.PathMultiLevelPropertyErr, typeName)
+	}
+
 	rootNode, err := ut.Schema.GetAST()
 	if err != nil {
 		return errors.New(jerr.RuntimeFailure)
